@@ -2,7 +2,7 @@
 // machine load).  When a call does not return within the budget the handler writes the line DOES-NOT-RETURN for that case
 // (async-signal-safe write) and ends the process with status 3; the check restarts the harness on the remaining cases and
 // re-runs the offending case alone with a larger budget before it reports it as a failing input "does not return".
-// Budget in seconds: environment variable C06_CPU_BUDGET (default 30).
+// Budget in seconds: environment variable C06_CPU_BUDGET (default 10).
 #ifndef C06_WATCHDOG_H
 #define C06_WATCHDOG_H
 #include <csignal>
@@ -18,8 +18,8 @@ static void c06_on_prof(int) {
 }
 static double c06_cpu_budget() {
     const char* e = getenv("C06_CPU_BUDGET");
-    double s = e ? atof(e) : 30.0;
-    return s > 0.01 ? s : 30.0;
+    double s = e ? atof(e) : 10.0;
+    return s > 0.01 ? s : 10.0;
 }
 static void c06_watchdog_install() {
     struct sigaction sa; memset(&sa, 0, sizeof(sa));
